@@ -45,6 +45,8 @@ def rpi (s : Stack) : List (Option Nat × Nat) × Bool × Option Nat × Option N
 @[simp] theorem rpi_with_outgoing_sendLog (s : Stack) (x : Outgoing) (y : List (Dest × (Bool × Nat))) : rpi { s with outgoing := x, sendLog := y } = rpi s := rfl
 @[simp] theorem rpi_with_findLog (s : Stack) (x : List (Nat × Nat)) : rpi { s with findLog := x } = rpi s := rfl
 @[simp] theorem rpi_with_findMarks (s : Stack) (x : List (Nat × Nat)) : rpi { s with findMarks := x } = rpi s := rfl
+@[simp] theorem rpi_with_ansLog (s : Stack) (x : List (Nat × Addr × Nat × Nat)) : rpi { s with ansLog := x } = rpi s := rfl
+@[simp] theorem rpi_logAnswer (s : Stack) (i : Nat) (a : Addr) (d : Nat) : rpi (s.logAnswer i a d) = rpi s := rfl
 @[simp] theorem rpi_markFind (s : Stack) (n : Nat) : rpi (s.markFind n) = rpi s := rfl
 @[simp] theorem rpi_with_offLog (s : Stack) (x : List (Nat × OEv × Nat)) : rpi { s with offLog := x } = rpi s := rfl
 @[simp] theorem rpi_logOffer (s : Stack) (i : Nat) (e : OEv) : rpi (s.logOffer i e) = rpi s := rfl
